@@ -33,7 +33,7 @@ def run_c14(tier):
     t0 = time.time()
     rng = random.Random(core.seed())
     v = core.Verdict(pid)
-    fam = "importsq" if tier == "quick" else "imports"
+    fam = "importsv" if tier == "quick" else "imports"      # importsq + alias redefined by a later file + quoted alias targets
 
     def tags_of(c, d):
         return {"aliases": sorted(e["n"] for e in (c.get("aux") or {}).get("table", []))}
